@@ -25,6 +25,29 @@ where Self: Sized {
 }
 
 
+//------------ Helper Functions ----------------------------------------------
+
+/// Reads exactly `len` bytes into a new vec.
+///
+/// The length typically is taken from the data itself and cannot be
+/// trusted. So, instead of allocating all memory up front, the vec is grown
+/// while reading which limits its size to what the source actually has.
+fn read_vec(
+    source: &mut impl io::Read, len: usize
+) -> Result<Vec<u8>, io::Error> {
+    use io::Read;
+
+    let mut res = Vec::new();
+    source.by_ref().take(
+        u64::try_from(len).unwrap_or(u64::MAX)
+    ).read_to_end(&mut res)?;
+    if res.len() != len {
+        return Err(io::ErrorKind::UnexpectedEof.into())
+    }
+    Ok(res)
+}
+
+
 //------------ u8 ------------------------------------------------------------
 
 impl<W: io::Write> Compose<W> for u8 {
@@ -146,8 +169,7 @@ impl<R: io::Read> Parse<R> for uri::Rsync {
         let len = usize::try_from(u32::parse(source)?).map_err(|_| {
             ParseError::format("URI too large for this system")
         })?;
-        let mut bits = vec![0u8; len];
-        source.read_exact(&mut bits)?;
+        let bits = read_vec(source, len)?;
         Self::from_bytes(bits.into()).map_err(|err| {
             ParseError::format(format!("bad URI: {err}"))
         })
@@ -174,8 +196,7 @@ impl<R: io::Read> Parse<R> for uri::Https {
         let len = usize::try_from(u32::parse(source)?).map_err(|_| {
             ParseError::format("URI too large for this system")
         })?;
-        let mut bits = vec![0u8; len];
-        source.read_exact(&mut bits)?;
+        let bits = read_vec(source, len)?;
         Self::from_bytes(bits.into()).map_err(|err| {
             ParseError::format(format!("bad URI: {err}"))
         })
@@ -211,8 +232,7 @@ impl<R: io::Read> Parse<R> for Option<uri::Https> {
         let len = usize::try_from(len).map_err(|_| {
             ParseError::format("URI too large for this system")
         })?;
-        let mut bits = vec![0u8; len];
-        source.read_exact(&mut bits)?;
+        let bits = read_vec(source, len)?;
         uri::Https::from_bytes(bits.into()).map_err(|err| {
             ParseError::format(format!("bad URI: {err}"))
         }).map(Some)
@@ -239,8 +259,7 @@ impl<R: io::Read> Parse<R> for Bytes {
         let len = usize::try_from(u64::parse(source)?).map_err(|_| {
             ParseError::format("data block too large for this system")
         })?;
-        let mut bits = vec![0u8; len];
-        source.read_exact(&mut bits)?;
+        let bits = read_vec(source, len)?;
         Ok(bits.into())
     }
 }
@@ -271,8 +290,7 @@ impl<R: io::Read> Parse<R> for Option<Bytes> {
         let len = usize::try_from(len).map_err(|_| {
             ParseError::format("data block large for this system")
         })?;
-        let mut bits = vec![0u8; len];
-        source.read_exact(&mut bits)?;
+        let bits = read_vec(source, len)?;
         Ok(Some(bits.into()))
     }
 }
@@ -410,7 +428,7 @@ where
         // to be very big. We will hit the end of file if it was during
         // reading, so I don’t think we need any additional measures?
         let mut res = HashMap::with_capacity(
-            cmp::max(len, 65536)
+            cmp::min(len, 65536)
         );
         
         for _ in 0..len {
